@@ -161,6 +161,12 @@ func (r *resolver) enter(d Definition) ([]Definition, error) {
 	if hasCases, valid := d.(*Choice); valid {
 		for _, cident := range hasCases.CaseIdents() {
 			c := hasCases.cases[cident]
+			if on, err := checkFeature(c); err != nil {
+				return nil, err
+			} else if !on {
+				delete(hasCases.cases, cident)
+				continue
+			}
 			if _, err := r.addDefinitions(c, c.popDataDefinitions()); err != nil {
 				return nil, err
 			}
@@ -172,7 +178,13 @@ func (r *resolver) enter(d Definition) ([]Definition, error) {
 	// actions and notifications are be added as part of resolving uses in
 	// datadefs lists and they are resolved then.
 	if hasActions, valid := d.(HasActions); valid {
-		for _, a := range hasActions.Actions() {
+		for ident, a := range hasActions.Actions() {
+			if on, err := checkFeature(a); err != nil {
+				return nil, err
+			} else if !on {
+				delete(hasActions.Actions(), ident)
+				continue
+			}
 			if _, err := r.enter(a); err != nil {
 				return nil, err
 			}
@@ -180,7 +192,13 @@ func (r *resolver) enter(d Definition) ([]Definition, error) {
 	}
 
 	if hasNotification, valid := d.(HasNotifications); valid {
-		for _, n := range hasNotification.Notifications() {
+		for ident, n := range hasNotification.Notifications() {
+			if on, err := checkFeature(n); err != nil {
+				return nil, err
+			} else if !on {
+				delete(hasNotification.Notifications(), ident)
+				continue
+			}
 			if _, err := r.enter(n); err != nil {
 				return nil, err
 			}
@@ -578,6 +596,11 @@ func (r *resolver) expandUses(parent HasDataDefinitions, u *Uses) ([]Definition,
 	// copy in any actions or notifications unresolved, they will be resolved
 	// in caller loop
 	for _, a := range g.Actions() {
+		if on, err := checkFeature(a); err != nil {
+			return nil, err
+		} else if !on {
+			continue
+		}
 		hasActions, validActions := parent.(HasActions)
 		if !validActions {
 			return nil, fmt.Errorf("cannot add %s. %s does not allow actions", u.ident, SchemaPath(u))
@@ -591,6 +614,11 @@ func (r *resolver) expandUses(parent HasDataDefinitions, u *Uses) ([]Definition,
 		}
 	}
 	for _, a := range g.Notifications() {
+		if on, err := checkFeature(a); err != nil {
+			return nil, err
+		} else if !on {
+			continue
+		}
 		hasNotifs, validNotifs := parent.(HasNotifications)
 		if !validNotifs {
 			return nil, fmt.Errorf("cannot add %s. %s does not allow notifications", u.ident, SchemaPath(u))
@@ -843,6 +871,11 @@ func (r *resolver) expandAugment(y *Augment, parent Meta) error {
 		d := orig.(cloneable).clone(target).(Definition)
 		if targetIsChoice {
 			if cs, isCase := d.(*ChoiceCase); isCase {
+				if on, ferr := checkFeature(cs); ferr != nil {
+					return ferr
+				} else if !on {
+					continue
+				}
 				if err = targetChoice.addCase(cs); err != nil {
 					return err
 				}
@@ -864,6 +897,11 @@ func (r *resolver) expandAugment(y *Augment, parent Meta) error {
 	}
 
 	for _, orig := range y.Actions() {
+		if on, err := checkFeature(orig); err != nil {
+			return err
+		} else if !on {
+			continue
+		}
 		hasActions, validActions := target.(HasActions)
 		if !validActions {
 			return fmt.Errorf("%s - augment target %s does not allow actions", SchemaPath(y), y.ident)
@@ -878,6 +916,11 @@ func (r *resolver) expandAugment(y *Augment, parent Meta) error {
 	}
 
 	for _, orig := range y.Notifications() {
+		if on, err := checkFeature(orig); err != nil {
+			return err
+		} else if !on {
+			continue
+		}
 		hasNotifs, validNotifs := target.(HasNotifications)
 		if !validNotifs {
 			return fmt.Errorf("%s - augment target %s does not allow notifications", SchemaPath(y), y.ident)
